@@ -2,7 +2,12 @@
 //! /verif/known_findings.json (committed, read-only at run time) says which are open.
 #![allow(dead_code)]
 
+use std::sync::OnceLock;
+
 use crate::check::Known;
+
+/// identifiers harvested from educe's own output (set by C19 before it evaluates cases)
+pub static HARVEST: OnceLock<Vec<String>> = OnceLock::new();
 use crate::spec::*;
 
 fn erase_lifetimes(s: &str) -> String {
@@ -100,6 +105,14 @@ pub fn spec_signatures(s: &TypeSpec) -> Vec<&'static str> {
             out.push("copy_attribute_below_type_level_while_clone_is_educed");
         }
     }
+    if let Some(h) = HARVEST.get() {
+        if s.gens.consts.iter().any(|c| h.contains(&c.name)) {
+            out.push("const_parameter_named_like_a_generated_binding");
+        }
+        if s.gens.types.iter().any(|t| t.name.starts_with("Educe__")) || s.name.starts_with("Educe__") {
+            out.push("user_item_named_like_an_internal_helper_type");
+        }
+    }
     if s.has(Tr::Debug) && s.kind != Kind::Union {
         // a `?Sized` type parameter used as the last field
         if s.gens.types.iter().any(|t| t.bounds.iter().any(|b| b == "?Sized")) {
@@ -116,6 +129,8 @@ pub fn failure_matches(sig: &str, msg: &str) -> bool {
         "copy_clone_enum_with_clone_method_and_type_parameter" => msg.contains("E0204"),
         "field_types_differ_only_in_lifetime" => msg.contains("E0283") || msg.contains("E0204") || msg.contains("lifetime may not live long enough"),
         "debug_unsized_tail" => msg.contains("E0277"),
+        "const_parameter_named_like_a_generated_binding" => msg.contains("E0308") || msg.contains("E0530") || msg.contains("E0005") || msg.contains("E0423") || msg.contains("E0532"),
+        "user_item_named_like_an_internal_helper_type" => msg.contains("does not compile"),
         "union_hash_without_leading_unsafe" => msg.contains("panic"),
         "copy_attribute_below_type_level_while_clone_is_educed" => msg.contains("accepted"),
         _ => false,
